@@ -34,7 +34,14 @@ def to_oa_date(date):
 
 
 def to_date(oadate):
-    value = oadate - DAYS_EPOCH
+    # split into whole days and milliseconds of the day; rounding (instead
+    # of truncating every unit in turn) keeps whole seconds whole
+    days = math.floor(oadate)
+    millis = round((oadate - days) * 24 * 60 * 60 * 1000)
+    if millis >= 24 * 60 * 60 * 1000:
+        days += 1
+        millis = 0
+    value = days - DAYS_EPOCH
     year = 1970
     while value >= year_days(year):
         value -= year_days(year)
@@ -46,15 +53,11 @@ def to_date(oadate):
     while value >= month_days(year, month):
         value -= month_days(year, month)
         month += 1
-    day = math.trunc(value) + 1
-    value = value - math.trunc(value)
-    hours = math.trunc(value * 24)
-    value = value * 24 - hours
-    minutes = math.trunc(value * 60)
-    value = value * 60 - minutes
-    seconds = math.trunc(value * 60)
-    value = value * 60 - seconds
-    microseconds = math.trunc(value * 1000 * 1000)
+    day = value + 1
+    hours = millis // (60 * 60 * 1000)
+    minutes = millis // (60 * 1000) % 60
+    seconds = millis // 1000 % 60
+    microseconds = millis % 1000 * 1000
     result = datetime.datetime.fromtimestamp(0)
     return result.replace(
         year=year,
